@@ -147,6 +147,7 @@ def run(ctx):
              'descriptor is closed exactly once on every path (os.close or a '
              'file object wrapped around it)')
     _ensure_tree(ctx)
+    _history(ctx)
     _delete_if_exists(ctx)
     _last_bytes(ctx)
     _checksum(ctx)
@@ -188,6 +189,39 @@ def _ensure_tree(ctx):
                   mk[0][2][0] == T('sym', 'path'),
                   'os.makedirs is called once with the path (calls: %s)' %
                   [show(T('c', *c[2])) for c in mk])
+
+
+def _history(ctx):
+    """The file system is asked on every call: nothing a call learned is
+    remembered for the next one (the directory may have been removed, the
+    file re-created in between)."""
+    from ..core.table import history_compare
+    rep, world = ctx.report, ctx.world
+    rep.rule('R20.6', 'ensure_tree / delete_if_exists act on the file system '
+             'on every call: an earlier call for the same (or another) path '
+             'changes neither the result nor the calls made')
+
+    def setup(interp):
+        def hook(interp, name, f, args, kwargs):
+            if name in ('os.makedirs', 'os.unlink', 'os.remove', 'os.mkdir'):
+                interp.effect('call', name, tuple(interp.termify(a)
+                                                  for a in args))
+                return K(None)
+            return NotImplemented
+        interp.on_call = _fs_model(hook)
+
+    def acts(e):
+        return e[0] == 'call' and e[1] in (
+            'os.makedirs', 'os.unlink', 'os.remove', 'os.mkdir')
+    for name in ('ensure_tree', 'delete_if_exists'):
+        f = world.func(MOD, name)
+        for p1, p2 in (('/var/lib/x', '/var/lib/x'), ('/var/lib/x', '/var'),
+                       ('/a', '/b')):
+            history_compare(
+                rep, 'R20.6', '%s[after an earlier call]' % name, world,
+                lambda i, f=f: f, ([K(p1)], {}), ([K(p2)], {}), setup=setup,
+                label='%s(%r) then %s(%r)' % (name, p1, name, p2),
+                effects=acts)
 
 
 def _delete_if_exists(ctx):
